@@ -155,6 +155,12 @@ def oracle_C02(inp):
         z = Sid(pre)
         if z and Sid(z).type != z.type:
             out.append("Sid(Sid(%r)) has type %r, the Sid had %r" % (pre, Sid(z).type, z.type))
+    # asking a Sid for its other forms does not change it: it stays equal to a Sid of the same string
+    o0 = observe(x)
+    forms0 = (x.uri, x.as_query(), repr(x), x.as_query(), x.uri)
+    if observe(x) != o0 or not same(x, Sid(s)) or forms0[0] != forms0[4] or forms0[1] != forms0[3]:
+        out.append("Sid(%r) after uri / as_query() / repr(): %r, before %r; forms %r" % (s, observe(x), o0, forms0))
+        x = Sid(s)
     y = Sid(x.uri)
     if not same(x, y):
         out.append("Sid(uri) differs for %r: %r vs %r" % (s, observe(x), observe(y)))
